@@ -52,6 +52,22 @@ KNOWN_FINDINGS = [
              "goroutine; witness unmarshal_pool_refuted_null_subnet, corpus C18 conf"},
 ]
 
+MANIFEST = {
+    "text": "PARTIAL proof. (1) Coq no-panic / termination theorems for ALL inputs of the executable models of the parsing and "
+            "decision surfaces (Model/Surf.v, Pool.v, Nets.v): unmarshal_pool_no_panic, walk_terminates (fuel = total size + 1 "
+            "suffices for every accepted pool and every requested range, incl. ranges ending at 255.255.255.255), "
+            "parse_range_total, net_annotation_no_panic, preempt_no_panic, policy_sync_no_panic, policy_rules_aligned, "
+            "cni_request_no_panic, pagination_slice_safe, parse_pod_index_no_panic; each old crash keeps its refutation witness "
+            "for the old flag. (2) Lock balance: balanced_sound is proved once; the lock operations of every function of the "
+            "tracked packages are extracted from /repo's Go AST on every run (extractor/) and the proved decision procedure is "
+            "evaluated on them (locks_balanced instantiated at run time). (3) The typed surfaces end to end (real Filter/Bind/"
+            "Preempt/HTTP handlers/CNI request/networks annotation/NetworkPolicy objects/ConfigMap decoder) are run under a "
+            "watchdog with a follow-up call that needs every lock - differential testing of the result class only.",
+    "note": "trusted: Coq kernel (no axioms); the Go-AST translator (syntactic, follows calls inside the package); models cover the "
+            "listed surfaces only - a panic in code that is not modelled can only be found by part (3), which is testing, not proof",
+}
+
+
 BOUNDARY_RANGES = ["255.255.255.250~255.255.255.255", "255.255.255.255", "0.0.0.0~0.0.0.3", "10.0.0.2~10.0.0.4",
                    "10.0.0.60~10.0.0.2", "10.0.0.2", "10.0.0.256", "1.2.3", "", "~", "10.0.0.2~", "::1", "10.0.0.2~10.0.0.2"]
 
